@@ -418,8 +418,8 @@ func RunOn(prog *Program, kb *ast.KnowledgeBase, w *ref.World, opts RunOpts, tr 
 	m := &monitor{prog: prog, kb: kb, dc: dc, world: w, tr: tr, opts: &opts, retracted: map[string]bool{}, memo: NewMemoSet(kb)}
 	eng := &engine.GruleEngine{MaxCycle: opts.MaxCycle, ReturnErrOnFailedRuleEvaluation: opts.ReturnErr}
 	eng.Listeners = append(eng.Listeners, m)
+	tr.ExtraLogs = make([][]string, opts.ExtraListeners)
 	for i := 0; i < opts.ExtraListeners; i++ {
-		tr.ExtraLogs = append(tr.ExtraLogs, nil)
 		eng.Listeners = append(eng.Listeners, extraListener{log: &tr.ExtraLogs[i]})
 	}
 	for _, f := range w.Objs {
@@ -581,3 +581,36 @@ func SortedNames(m map[string]bool) []string {
 
 var _ = facts.New
 var _ = grl.I
+
+// RunPlain executes without any listener (and without monitor) under the given order choices.
+func RunPlain(b *Built, w *ref.World, opts RunOpts) (err error, final string, panicked interface{}) {
+	kb, ierr := b.Instance()
+	if ierr != nil {
+		return ierr, "", nil
+	}
+	dc, derr := NewDataContext(w)
+	if derr != nil {
+		return derr, "", nil
+	}
+	eng := &engine.GruleEngine{MaxCycle: opts.MaxCycle, ReturnErrOnFailedRuleEvaluation: opts.ReturnErr}
+	hook := 0
+	setChooser(kb.RuleEntries, func(keys []string) []int {
+		ps := Perms(len(keys))
+		ch := 0
+		if hook < len(opts.Choices) {
+			ch = opts.Choices[hook]
+		}
+		hook++
+		return ps[ch]
+	})
+	defer setChooser(kb.RuleEntries, nil)
+	func() {
+		defer func() {
+			if r := recover(); r != nil {
+				panicked = r
+			}
+		}()
+		err = eng.Execute(dc, kb)
+	}()
+	return err, Live(w, dc).Dump(), panicked
+}
